@@ -262,6 +262,8 @@ def _locate_droplets_in_mask_cylindrical_single(
 
     # determine position from binary image and scale it to real space
     pos = ndimage.center_of_mass(mask, labels, index=indices)
+    # correct for the fact that cell centers lie at half-integer cell coordinates
+    pos = np.asarray(pos) + 0.5
     pos = grid.transform(pos, "cell", "cartesian")
 
     # determine volume from binary image and scale it to real space
